@@ -179,6 +179,12 @@ def packet_families(rng, tier, scale=1.0):
     for T in (255, 256, 257, 512, 4096, 8191, 8192, 8193, 16383):  # incl. targets at the size constants of the library and the largest pointer value
         for b in G.label_at_packets(T):
             out.append(("label-at-%d" % T, b))
+    # pointer chains of mixed shape around the hop limit: runs of pointer-to-pointer steps reached through pointer-to-label steps
+    for b in G.mixed_chain_family(thorough=(tier != "quick")):
+        out.append(("mixed-chain", b))
+    # reading that starts in the middle of earlier labels (pointer-like pairs and length-like bytes inside label contents)
+    for b in G.misaligned_packets(rng, 1500 if tier == "quick" else 60000):
+        out.append(("misaligned", b))
     # every declared data length of a record with names inside (SOA, MX) from 0 to beyond the true one, with long uncompressed
     # names and with pointers: any subtraction `rdlen - <something computed from the names>` meets each sign
     for b in G.rdlen_sweep_packets():
@@ -442,7 +448,8 @@ class C12(Prop):
             "set_flags / set_rcode / set_opcode / set_response / set_tid with arguments drawn from {0, all-ones, single bits, inverted "
             "single bits, random} (thorough: 24 argument rounds per word), reading all getters and the raw bytes after each setter; plus "
             "600 (thorough 6000) packets that carry an OPT record with extended flags / payload values, the same setters and reads "
-            "(the getters must keep reporting what the OPT record says, whatever the upper half of the flags argument). "
+            "(the getters must keep reporting what the OPT record says, whatever the upper half of the flags argument); plus 200 (thorough "
+            "2000) synthesised empty packets (12 bytes, before any insertion) under the same setters. "
             "Non-trivial = every case (each exercises five setters); distinct = distinct (word, arguments).")
     strength = ("full statement at word level for every 16-bit word and every argument value (bit-vector proof, upper half of the "
                 "flags argument included); byte level for all 256x256 (header byte, u8 argument) pairs; packet level: frame (only "
@@ -469,6 +476,24 @@ class C12(Prop):
         return Case("w%d%s" % (w, "e%d_%d_%d" % (opt[0], opt[1], tid) if opt else ""), "\t".join(ops),
                     {"family": "flags-edns" if opt else "flags", "w": w, "tid": tid, "pkt": pkt.hex(), "args": args, "opt": opt})
 
+    def empty_cases(self, rng, n, rounds):
+        """The same setters on a synthesised empty packet (12 bytes: nothing but the header), before any record is inserted."""
+        out = []
+        for i in range(n):
+            tid = rng.randint(0, 0xFFFF)
+            ops = ["E,%d" % tid, "g", "b"]
+            args = []
+            for _ in range(rounds):
+                k = rng.randrange(32)
+                f = rng.choice([0, 0xFFFFFFFF, 1 << k, 0xFFFFFFFF ^ (1 << k), rng.getrandbits(32), rng.getrandbits(16)])
+                seq = [("sf", f), ("sr", rng.randint(0, 255)), ("so", rng.randint(0, 255)), ("sp", rng.randint(0, 1)), ("st", rng.randint(0, 65535))]
+                rng.shuffle(seq)
+                for name, a in seq:
+                    ops += ["%s,%d" % (name, a), "g", "b"]
+                    args.append((name, a))
+            out.append(Case("e%d_%d" % (i, tid), "\t".join(ops), {"family": "flags-empty", "args": args, "tid": tid}))
+        return out
+
     def edns_cases(self, rng, n, rounds):
         """Packets that carry an OPT record (the getters then combine the header with what was parsed from it): a setter must neither
         write to it nor change what the getters report from it, whatever the upper half of the flags argument says."""
@@ -484,11 +509,11 @@ class C12(Prop):
         rounds = 1 if tier == "quick" else 24
         words = range(65536) if tier == "quick" else range(0, 65536, 1)
         if tier == "thorough":
-            return [self.one(rng, w, 2 if w % 16 else rounds) for w in words] + self.edns_cases(rng, 6000, 6)
-        return [self.one(rng, w, rounds) for w in words] + self.edns_cases(rng, 600, 3)
+            return [self.one(rng, w, 2 if w % 16 else rounds) for w in words] + self.edns_cases(rng, 6000, 6) + self.empty_cases(rng, 2000, 6)
+        return [self.one(rng, w, rounds) for w in words] + self.edns_cases(rng, 600, 3) + self.empty_cases(rng, 200, 3)
 
     def search(self, rng):
-        return [self.one(rng, w, 6) for w in range(65536)] + self.edns_cases(rng, 3000, 6)
+        return [self.one(rng, w, 6) for w in range(65536)] + self.edns_cases(rng, 3000, 6) + self.empty_cases(rng, 1000, 6)
 
     def expect_g(self, tid, w, opt=None):
         qr = (w >> 15) & 1
@@ -501,6 +526,8 @@ class C12(Prop):
         w0 = no_crash(io)
         if w0:
             return w0
+        if case.meta["family"] == "flags-empty":
+            return self.oracle_empty(case, io)
         pkt = bytes.fromhex(case.meta["pkt"])
         tid, w = case.meta["tid"], case.meta["w"]
         if not io[0].startswith("OK"):
@@ -535,6 +562,53 @@ class C12(Prop):
             i += 3
         return None
 
+    def oracle_empty(self, case, io):
+        """Synthesised empty packet: the initial header is read from the object itself (its id is the one asked for), then every setter
+        must change exactly its field of those 12 bytes and the getters must report the stored values."""
+        import re
+        if len(io) < 3 or not io[2].startswith("b="):
+            return "no header bytes from a synthesised empty packet: " + " ".join(io[:3])[:120]
+        hdr = bytes.fromhex(io[2][2:])
+        if len(hdr) != 12:
+            return "a synthesised empty packet has %d bytes, expected the 12 header bytes" % len(hdr)
+        tid, w = struct.unpack(">HH", hdr[:4])
+        if tid != case.meta["tid"]:
+            return "empty packet created with id %d carries id %d" % (case.meta["tid"], tid)
+        m = re.match(r"g\[tid=(\d+) fl=(\d+) rc=(\d+) op=(\d+) qr=(\d+) sec=(\d+) mp=(\d+)\]", io[1])
+        if not m:
+            return "getters of the empty packet: " + io[1]
+        mp = int(m.group(7))
+
+        def exp_g(tid, w):
+            qr = (w >> 15) & 1
+            return "g[tid=%d fl=%d rc=%d op=%d qr=%d sec=%d mp=%d]" % (tid, w & 0x87F0, w & 15, (w >> 11) & 15, qr, ((w >> 5) & 1) if qr else 0, mp)
+        if io[1] != exp_g(tid, w):
+            return "getters on the empty packet: got %s, its header bytes say %s" % (io[1], exp_g(tid, w))
+        i = 3
+        for name, a in case.meta["args"]:
+            before = (tid, w)
+            if name == "sf":
+                w = (w & 0x780F) | (a & 0x87F0)
+            elif name == "sr":
+                w = (w & 0xFFF0) | (a & 15)
+            elif name == "so":
+                w = (w & 0x87FF) | ((a & 15) << 11)
+            elif name == "sp":
+                w = (w & 0x7FFF) | (a << 15)
+            elif name == "st":
+                tid = a & 0xFFFF
+            if len(io) < i + 3:
+                return "missing observations after %s" % name
+            if io[i] != "OK":
+                return "%s(%d) on an empty packet returned %s" % (name, a, io[i])
+            exp_b = "b=" + (struct.pack(">HH", tid, w) + hdr[4:]).hex()
+            if io[i + 2] != exp_b:
+                return "%s(%d) on an empty packet with tid=0x%04x word=0x%04x: header became %s, must be %s" % (name, a, before[0], before[1], io[i + 2][2:], exp_b[2:])
+            if io[i + 1] != exp_g(tid, w):
+                return "after %s(%d) on an empty packet: getters %s, stored value %s" % (name, a, io[i + 1], exp_g(tid, w))
+            i += 3
+        return None
+
     def classify(self, case, why):
         for name in ("sf", "sr", "so", "sp", "st"):
             if why.startswith(name + "(") or why.startswith("after " + name):
@@ -545,7 +619,7 @@ class C12(Prop):
         return hash(case.line)
 
     def tags(self, case, io):
-        return ["qr=%d" % (case.meta["w"] >> 15)]
+        return ["qr=%d" % (case.meta["w"] >> 15)] if "w" in case.meta else ["empty"]
 
     def shrink(self, case, still_fails):
         # keep the first failing setter only
@@ -841,7 +915,12 @@ class C04(Prop):
             q[j] = bytes(l)
         else:
             q = [b"n" * rng.randint(1, 12)] + q[1:]
-        ops += ["W,q,0,n.M%s/*n" % hx(G.wire_name(q)), "b", "q0", "q1", "q2", "qt", "g"]
+        if rng.random() < 0.3:
+            # the question is deleted and another one (other name, other type) inserted in its place
+            newq = b"mail.%s.net" % bytes(rng.choice(b"abcdefgh") for _ in range(rng.randint(1, 9)))
+            ops += ["W,q,0,n.X/*n", "IQ,%s,%d" % (hx(newq), rng.choice([1, 28, 15, 255])), "b", "q0", "q1", "q2", "qt", "g"]
+        else:
+            ops += ["W,q,0,n.M%s/*n" % hx(G.wire_name(q)), "b", "q0", "q1", "q2", "qt", "g"]
         if rng.random() < 0.5:
             ops += ["rc", "b", "q0", "q2", "g"]
         return Case("r%d" % i, "\t".join(ops), {"family": "after-rename", "pkt": b.hex()})
@@ -883,6 +962,11 @@ class C04(Prop):
         exp = expected(m)
         changed = False
         for op, o in zip(case.line.split("\t")[1:], io[1:]):
+            if op.startswith("IQ,"):
+                exp, changed = None, True
+                if o != "OK":
+                    return "inserting a question after the question was deleted: " + o[:120]
+                continue
             if op == "rc" or op.startswith("W,"):
                 exp, changed = None, True  # the bytes changed: the next `b` says what they are now
                 if op == "rc" and o != "OK":
@@ -1750,9 +1834,13 @@ class C08(HistProp):
                 "rename wrapper leaves the bytes that were parsed with that parse's offsets and EDNS fields, cache empty (C08_recompute_view, "
                 "C08_rename_view); (iii) insert_rr of a well-formed pointer-free non-OPT record into any record section of a freshly parsed "
                 "object leaves a view equal to the fresh parse of the new, accepted bytes in every field (C08_insert_view, with "
-                "C09_insert_effect); plus frame/shape lemmas (C08_insert_shape, C08_header_setters_keep_view). The invariant for the "
-                "remaining operations and for longer histories is decided each run by the correspondence plus the fresh-parse oracle on "
-                "every step of every history.")
+                "C09_insert_effect); (iv) HISTORIES (C08_histories, C08_step_keeps_invariant): for every accepted response, any history that "
+                "starts with an insertion or recompute and goes on with any sequence of successful insertions of such records, recomputes, "
+                "set_tid, set_rcode, set_opcode, set_response(true) and set_flags with QR ends with accepted bytes that are a fixed point of "
+                "decompression, the not-compressed flag, and every offset and EDNS field equal to a fresh parse; plus frame/shape lemmas "
+                "(C08_insert_shape, C08_header_setters_keep_view). Operations that move the cursor (TTL / address / name setters, deletion, "
+                "cursor decompression), insertion of OPT records or of a question, and histories on synthesised objects are decided each run "
+                "by the correspondence plus the fresh-parse oracle on every step of every history.")
 
     def gen(self, rng, tier):
         n = 500 if tier == "quick" else 80000
@@ -2489,6 +2577,11 @@ class C16(Prop):
             st = ["0:f0"] + ["%d:f%d" % (t, 1 + t % 4) for t in range(1, n)] + ["0:r"] + ["%d:r" % t for t in range(n - 1, 0, -1)] + ["0:r"]
             cases.append(Case("h%d" % k, "H,%d,%s" % (n, ".".join(st)), {"family": "many-threads"}))
             k += 1
+        # thread 0 fails and stays alive, n short-lived threads then fail one after the other, thread 0 reads: a table of slots handed out
+        # by a wrapping counter of any size up to n is detected (powers of two and their neighbours)
+        for n in ((300, 4097) if tier == "quick" else (300, 4097, 65535, 65536, 65537, 131073)):
+            cases.append(Case("h%d" % k, "HS,%d" % n, {"family": "sequential-threads"}))
+            k += 1
         return cases
 
     def oracle(self, case, io):
@@ -2496,6 +2589,9 @@ class C16(Prop):
         if w:
             return w
         o = io[0]
+        if case.line.startswith("HS,"):
+            exp = "HS[Invalid_name_in_a_DNS_record:_Spurious_dot_in_a_label]"
+            return None if o == exp else "thread 0 failed with 'Spurious dot in a label', %s other threads failed afterwards, thread 0 then read %s" % (case.line[3:], o)
         if not o.startswith("H["):
             return "schedule did not complete: " + o
         toks = o[2:-1].split(" ")
@@ -2519,6 +2615,8 @@ class C16(Prop):
         return "cerr"
 
     def nontrivial(self, case, io):
+        if case.line.startswith("HS,"):
+            return hash(case.line)
         steps = case.line.split(",")[2].split(".")
         lastfail = {}
         for i, st in enumerate(steps):
@@ -2530,6 +2628,8 @@ class C16(Prop):
         return None
 
     def tags(self, case, io):
+        if case.line.startswith("HS,"):
+            return ["sequential=%s" % case.line[3:]]
         return ["steps=%d" % len(case.line.split(",")[2].split("."))]
 
 
